@@ -90,9 +90,9 @@ func (c Config) valid() bool {
 	if c.NoCopy && !(c.Body == "json" || c.Body == "xml") {
 		return false
 	}
-	if c.Poll && ((c.TLS && !tlsPollOn) || c.Net == "ws") {
-		// known findings C12/tls+poll and C12/ws+poll (known_findings.json): excluded from the
-		// search by construction, counted by the generators
+	if c.Poll && c.Net == "ws" && !wsPollOn {
+		// known finding C12/ws+poll (known_findings.json): excluded from the search by
+		// construction, counted by the generators
 		return false
 	}
 	if c.Net == "ws" && (c.CliPipe || c.CliSpell == "transport" || c.CliSpell == "client") {
@@ -155,18 +155,9 @@ func genConfig(t *rapid.T) Config {
 		if !(c.Net == "tcp" || c.Net == "unix" || c.Net == "http" || c.Net == "ws") {
 			c.Poll = false
 		}
-		if c.Poll && c.Net == "ws" {
+		if c.Poll && c.Net == "ws" && !wsPollOn {
 			atomic.AddInt64(&excludedWSPoll, 1)
 			c.Poll = false
-		}
-		if c.TLS && c.Poll && !tlsPollOn {
-			// known finding: TLS together with poll mode; keep one of the two and count the exclusion
-			atomic.AddInt64(&excludedTLSPoll, 1)
-			if rapid.Bool().Draw(t, "keep_tls") {
-				c.Poll = false
-			} else {
-				c.TLS = false
-			}
 		}
 		if !(c.Body == "json" || c.Body == "xml") {
 			c.NoCopy = false
@@ -298,11 +289,7 @@ func enum(tier string, yield func(Case)) {
 							cfg.CliSpell = "funcs"
 						}
 						count++
-						if cfg.TLS && cfg.Poll && !tlsPollOn {
-							atomic.AddInt64(&excludedTLSPoll, 1)
-							continue
-						}
-						if cfg.Poll && net == "ws" {
+						if cfg.Poll && net == "ws" && !wsPollOn {
 							atomic.AddInt64(&excludedWSPoll, 1)
 							continue
 						}
@@ -328,10 +315,8 @@ const bound = 10 * time.Second
 
 var portSeq int64
 
-// excludedTLSPoll counts configurations dropped because of the known finding (TLS with poll).
-var excludedTLSPoll int64
-
-var tlsPollOn = os.Getenv("VERIF_C12_TLSPOLL") != ""
+// wsPollOn is a development switch: include ws+poll configurations (known finding K2) in the search.
+var wsPollOn = os.Getenv("VERIF_C12_WSPOLL") != ""
 
 // excludedWSPoll counts configurations dropped because of the known finding (ws with poll).
 var excludedWSPoll int64
@@ -483,7 +468,9 @@ func runOn(c Config, items []Item, workers int) (map[int]string, []string, strin
 		for attempt := 0; attempt < 6 && !connected; attempt++ {
 			addr := freshAddr(c.Net)
 			lis := make(chan error, 1)
+			lisDone := make(chan struct{})
 			go func() {
+				defer close(lisDone)
 				switch c.SrvSpell {
 				case "listen":
 					if c.TLS {
@@ -497,11 +484,12 @@ func runOn(c Config, items []Item, workers int) (map[int]string, []string, strin
 			}()
 			stopServer = func() {
 				srv.Close()
-				if !c.Poll {
-					select {
-					case <-lis:
-					case <-time.After(5 * time.Second):
-					}
+				// also for poll-mode servers (about a second): a netpoll server that is still
+				// winding down has workers that may touch descriptor numbers the next case's
+				// sockets have reused (observed: first Ping of the next configuration never answered)
+				select {
+				case <-lisDone:
+				case <-time.After(8 * time.Second):
 				}
 				if c.Net == "unix" {
 					os.Remove(addr)
@@ -1009,7 +997,7 @@ func run(c Case) kit.Outcome {
 		}
 	}
 	out := kit.Outcome{Classes: []string{"net=" + c.Cfg.Net, "body=" + c.Cfg.Body, "header=" + c.Cfg.Header, "srv=" + c.Cfg.SrvSpell, "cli=" + c.Cfg.CliSpell}}
-	out.Counters = map[string]int{"excluded_known_finding_tls_with_poll": int(atomic.SwapInt64(&excludedTLSPoll, 0)), "excluded_known_finding_ws_with_poll": int(atomic.SwapInt64(&excludedWSPoll, 0))}
+	out.Counters = map[string]int{"excluded_known_finding_ws_with_poll": int(atomic.SwapInt64(&excludedWSPoll, 0))}
 	smallest := 65536
 	for _, b := range []int{c.Cfg.SrvBuf, c.Cfg.CliBuf, c.Cfg.CtxCap} {
 		if b > 0 && b < smallest {
